@@ -1,5 +1,6 @@
 import UberjobModel.Lemmas.PlanCall
 import UberjobModel.Lemmas.PlanRewire
+import UberjobModel.Props.C03
 /-!
 # C02 — `run` returns exactly what direct evaluation of the call graph would return
 
@@ -251,5 +252,57 @@ example : getArgumentNodes (exSt2.edges.map (rewire 1 7)) 4 = some ([7, 0], [("z
 example : runResult exSt2 4 = eval exSt2 4 := by rfl
 example : Val.pyDict [(.int 1, .atom 1), (.atom 2, .atom 2), (.int 1, .atom 3)] = [(.int 1, .atom 3), (.atom 2, .atom 2)] := by
   rfl
+
+
+/-! ### Schedule independence, derived from the engine
+
+`C02_schedule_independent` takes the order in which nodes are processed as given ("what the engine guarantees").  For a
+run WITHOUT a registry the end-to-end theorem of Props/C03.lean supplies it: `Exec.Setup` holds trivially (no stale node,
+no store), so under EVERY schedule of the engine model — every worker count, `max_errors`, queue discipline (FIFO, heap,
+random bag) and interleaving — a run that returns normally returns the from-scratch (direct-evaluation, Herbrand) value of
+the requested output, computed on the pruned plan the run actually examines. -/
+
+open Uberjob.Phys Uberjob.Exec Uberjob.Cache in
+theorem isStale_noreg {L : LPlan} (hL : L.WF) (hreg : ∀ k, L.reg k = none) (w : World) (F : Option Int) :
+    ∀ k, isStale L w F k = false := by
+  intro k
+  induction k using Nat.strongRecOn with
+  | ind k ih =>
+    unfold isStale
+    rw [sres_eq hL]
+    have hany : (L.preds k).any (fun p => (sres L w F p).stale) = false := by
+      apply List.any_eq_false.mpr
+      intro p hp
+      have := ih p (hL.predsLt k p hp)
+      unfold isStale at this
+      simp [this]
+    simp [staleStepF, hany, hreg k]
+
+open Uberjob.Phys Uberjob.Exec Uberjob.Cache in
+/-- A registry-less run satisfies the hypotheses of the end-to-end theorems. -/
+theorem setup_noreg {P : Input} (hP : P.WF) (hreg : P.reg = []) (hst : P.stale = [])
+    (hlit : ∀ e ∈ P.edges, P.lits.contains e.dst = true → e.key.isArg = false) :
+    Setup P ⟨fun _ => none⟩ none 0 where
+  wf := hP
+  stale := by
+    intro x
+    rw [isStale_noreg (toLPlan_wf hP) (fun k => by simp [Input.toLPlan, Input.regOf, hreg])]
+    simp [Input.isStale, hst]
+  srcFresh := by intro i hi; simp [Input.regOf, hreg] at hi
+  litArgs := hlit
+  good := by intro i hi; simp [Input.toLPlan, Input.regOf, hreg] at hi
+  below := by intro i m hm; simp [World.mtime] at hm
+  fresh := by intro f hf; cases hf
+
+open Uberjob.Phys Uberjob.Exec Uberjob.Cache in
+/-- **`run` without a registry returns the direct-evaluation value under every schedule.** -/
+theorem C02_engine_schedule_independent {P : Input} (hP : P.WF) (hreg : P.reg = []) (hst : P.stale = [])
+    (hlit : ∀ e ∈ P.edges, P.lits.contains e.dst = true → e.key.isArg = false)
+    {cfg : Engine.Cfg} (hw : 1 ≤ cfg.workers) {s : Engine.St} (h : Engine.Reach (engineGraph P) cfg s)
+    (hc : s.coord = .returned false) (hf : s.failed = []) {o : Nat} (ho : P.out = some o) (hon : o ∈ P.nodes) :
+    (execOrder P (initX ⟨fun _ => none⟩ 0) s.okd).get P (.orig o) = FS P.toLPlan ⟨fun _ => none⟩ o := by
+  have S := setup_noreg hP hreg hst hlit
+  have := (C03_end_to_end S hw h hc hf).2.2.2 o ho hon (.orig o) (by simp [physOut, ho, Input.regOf, hreg])
+  exact this
 
 end Uberjob.Plan
